@@ -2,9 +2,10 @@
 """Run /repo's pinned suite (guard off) and compare with BASELINE.json stable_pass."""
 import json, os, subprocess, sys, xml.etree.ElementTree as ET
 out = "/var/tmp/hyverif.baseline.%d.xml" % os.getpid()
-env = dict(os.environ); env.pop("HYLANG_HY_VERIF", None)
+repo = os.environ.get("BASELINE_REPO", "/repo")
+env = dict(os.environ); env.pop("HYLANG_HY_VERIF", None); env["PYTHONPATH"] = repo; env["PYTHONDONTWRITEBYTECODE"] = "1"
 subprocess.run(["/venv/bin/python", "-m", "pytest", "-q", "-p", "no:cacheprovider", "--timeout=900",
-                "--continue-on-collection-errors", "--junitxml=" + out], cwd="/repo", env=env,
+                "--continue-on-collection-errors", "--junitxml=" + out], cwd=repo, env=env,
                stdout=subprocess.DEVNULL, stderr=subprocess.DEVNULL)
 passed = set()
 why = {}
